@@ -14,12 +14,13 @@ POLY = ("hull", "box", "sphere", "capsule")
 
 
 class Body:
-    def __init__(self, spec, M, t, margin=0, cls=None):
+    def __init__(self, spec, M, t, margin=0, cls=None, R=None):
         self.spec, self.M, self.margin, self.cls = spec, np.array(M, dtype=int), int(margin), cls
         tt = np.array(t, dtype=float)
-        self.lattice = bool(np.all(tt == np.round(tt)))
+        self.lattice = bool(np.all(tt == np.round(tt))) and R is None
         self.t = tt.astype(int) if self.lattice else tt
-        self.R = self.M.astype(float)
+        self.R = self.M.astype(float) if R is None else np.array(R, dtype=float)     # R: a general (float) rotation, float tier only
+        self.general = R is not None
 
     def core(self):
         """(integer world-lattice vertices of the core polytope, integer radius) or None for round shapes"""
@@ -74,6 +75,8 @@ class Body:
 
     def describe(self):
         d = {"shape": {k: v for k, v in self.spec.items() if k != "name"}, "M": self.M.tolist(), "t": self.t.tolist(), "margin": self.margin}
+        if self.general:
+            d["R"] = self.R.tolist()
         return d
 
 
@@ -369,6 +372,9 @@ def random_lift(rng, A, B, kind):
         s = rng.choice((0.05, 0.25, 2.0, 7.0, smax))
         s = min(max(s, smin), smax)
         return (s, np.eye(3), np.zeros(3))
+    if kind == "tiny":
+        # the smallest feature sizes of the domain (about 0.02), optionally rotated
+        return (smin, S.random_rotation(rng) if rng.random() < 0.5 else np.eye(3), np.zeros(3))
     s = 10 ** rng.uniform(math.log10(max(smin, 1e-2)), math.log10(smax)) if rng.random() < 0.5 else 1.0
     s = min(max(s, smin), smax)
     Rg = S.random_rotation(rng)
@@ -411,7 +417,7 @@ def gen_prim_scenes(rng, n, kinds=("sphere", "capsule", "box", "ellipsoid", "cyl
     return out
 
 
-def graze(A, B, rng, delta_lat, ks=None):
+def graze(A, B, rng, delta_lat, ks=None, extra_dirs=None):
     """B shifted along a direction u so that the slab gap of the pair along u is +k*delta (clear gap, certified
     by u itself) or -k*delta (overlap along u; whether it is a deep overlap is decided by deep_overlap)"""
     cA = A.t + A.R @ center_local(A.spec)
@@ -419,6 +425,9 @@ def graze(A, B, rng, delta_lat, ks=None):
     dirs = [A.R[:, i] for i in range(3)] + [B.R[:, i] for i in range(3)]
     if np.linalg.norm(cB - cA) > 0:
         dirs.append((cB - cA) / np.linalg.norm(cB - cA))
+    if extra_dirs is not None and rng.random() < 0.35:
+        # e.g. the world axes of a lifted scene: contact at the points where the world AABBs are attained
+        dirs = [np.asarray(d, dtype=float) for d in extra_dirs]
     u = np.array(rng.choice(dirs), dtype=float)
     if rng.random() < 0.3:
         u = u + 0.3 * np.array([rng.gauss(0, 1) for _ in range(3)])
@@ -427,7 +436,25 @@ def graze(A, B, rng, delta_lat, ks=None):
         u = -u
     g = -B.support(-u) - A.support(u)
     k = rng.choice(ks) if ks else rng.choice((2, 5, 20, 100, 400)) * rng.choice((1, -1))
-    return Body(B.spec, B.M, B.t + (k * delta_lat - g) * u, B.margin, B.cls), u
+    return Body(B.spec, B.M, B.t + (k * delta_lat - g) * u, B.margin, B.cls, R=(B.R if getattr(B, "general", False) else None)), u
+
+
+def general_scenes(rng, n):
+    """pairs in general relative orientation (float tier): a polytope or box with a random rotation next to any catalogue body, at
+    a gap of 0.03 .. 1.5 units (or a shallow / deep overlap) along a random direction - a vertex or edge facing a curved side makes
+    the iterative algorithms run long"""
+    poly, rnd = spec_pool()
+    out = []
+    for _ in range(n):
+        pa = rng.choice(poly)
+        pb = rng.choice(rnd + rnd + poly)
+        A = Body(pa, np.eye(3, dtype=int), [rng.uniform(-3, 3) for _ in range(3)], 0, None, R=S.random_rotation(rng))
+        MB, _ = rng.choice(S.CUBE)
+        B0 = Body(pb, MB, [rng.randint(-3, 3) for _ in range(3)], rng.choice((0, 0, 0, 1)), None,
+                  R=(S.random_rotation(rng) if rng.random() < 0.5 else None))
+        B, _ = graze(A, B0, rng, rng.choice((0.03, 0.1, 0.3, 1.0, 1.5)), ks=(1, 1, 1, 1, -1, -3))
+        out.append((A, B) if rng.random() < 0.5 else (B, A))
+    return out
 
 
 def gen_scenes(rng, n, rounds=True):
@@ -474,6 +501,15 @@ class Hang(Exception):
 def time_limit(seconds):
     """wall-clock watchdog for one library call (the outer loops of the narrow phase are Python level)"""
     def handler(signum, frame):
+        try:
+            from numba.core.compiler_lock import global_compiler_lock
+            if global_compiler_lock.is_locked():
+                # a first call that is still compiling (fresh cache after a source change): the compiler is never interrupted
+                # - an exception thrown into it surfaces as an unrelated RuntimeError - the watchdog looks again later
+                signal.setitimer(signal.ITIMER_REAL, seconds)
+                return
+        except ImportError:
+            pass
         raise Hang()
     old = signal.signal(signal.SIGALRM, handler)
     signal.setitimer(signal.ITIMER_REAL, seconds)
